@@ -501,9 +501,12 @@ def build_zone(zclass, relativize, fresh):
     zone.set_max_versions(None)
     # a second version that shares most nodes with the first (copy-on-write) and puts a
     # delegation ABOVE g.d / h.d, which it does not write (a B-tree zone re-flags them as glue)
+    oo = lambda n: base.owner(n, not relativize)  # noqa: E731 - the OTHER spelling of an owner name
     with zone.writer() as txn:
-        txn.replace(o("@"), 300, base.soa_rdata(2))
-        txn.add(o("b"), 300, base.a_rdata(2))
+        # (written through the other spelling of the owner names and through text)
+        txn.replace(oo("@"), 300, base.soa_rdata(2))
+        txn.add(oo("b"), 300, base.a_rdata(2))
+        txn.add("a", 300, base.a_rdata(6))
         txn.add(nm("d"), 300, dns.rdata.from_text(IN, NS, "g.d.example."))
     # a third version that removes the delegation again (g.d / h.d re-flagged once more)
     with zone.writer() as txn:
